@@ -193,6 +193,23 @@ SOLO_COMPOSITES = [
     L("untagged_subset", {"oneOf": [obj({"name": STR}, ["name"], additionalProperties=False), obj({"name": STR, "email": STR}, ["name", "email"])]}),
     L("untagged_subset_rev", {"oneOf": [obj({"name": STR, "email": STR}, ["name", "email"]), obj({"name": STR}, ["name"], additionalProperties=False)]}),
     L("untagged_vec_set", {"oneOf": [{"type": "array", "items": INT}, {"type": "array", "items": INT, "uniqueItems": True}]}, ff=False),
+    L("anyof_arr_bounded", {"anyOf": [{"type": "array", "items": STR, "minItems": 1, "maxItems": 3}, {"type": "array", "items": INT, "minItems": 1, "maxItems": 3}]}),
+    L("anyof_arr_fixed2", {"anyOf": [{"type": "array", "items": STR, "minItems": 2, "maxItems": 2}, {"type": "array", "items": INT, "minItems": 2, "maxItems": 2}]}),
+    L("anyof_arr_len_disjoint", {"anyOf": [{"type": "array", "items": INT, "minItems": 3}, {"type": "array", "items": INT, "maxItems": 2}]}),
+    # a constraint added to a referenced definition through allOf (extra definitions travel with the shape)
+    L("ref_allof_maxlen", {"allOf": [{"$ref": "#/definitions/XLabel"}, {"maxLength": 4}]}, enf=True, strish=True, defs={"XLabel": {"type": "string"}}),
+    L("ref_allof_minlen", {"allOf": [{"$ref": "#/definitions/XLabel"}, {"minLength": 3}]}, enf=True, strish=True, defs={"XLabel": {"type": "string"}}),
+    L("ref_allof_pattern", {"allOf": [{"$ref": "#/definitions/XLabel"}, {"pattern": "^[a-z]+$"}]}, enf=True, strish=True, defs={"XLabel": {"type": "string"}}),
+    L("ref_allof_enum", {"allOf": [{"$ref": "#/definitions/XKind"}, {"enum": ["a"]}]}, enf=True, strish=True, defs={"XKind": {"type": "string", "enum": ["a", "b"]}}),
+    L("ref_allof_prop", {"allOf": [{"$ref": "#/definitions/XObj"}, {"properties": {"s": {"maxLength": 2}}}]}, enf=True,
+      defs={"XObj": obj({"s": STR, "n": INT}, ["s"])}),
+    L("ref_allof_required", {"allOf": [{"$ref": "#/definitions/XObj"}, {"required": ["n"]}]}, enf=True, defs={"XObj": obj({"s": STR, "n": INT}, ["s"])}),
+    # allOf in which two object branches constrain the SAME optional property
+    L("allof_prop_tuple", {"allOf": [obj({"name": STR, "range": {"type": "array", "items": [INT, INT], "minItems": 2, "maxItems": 2}}, ["name"]),
+                                     obj({"range": {"type": "array", "items": {"type": "integer", "minimum": 0}}})]}),
+    L("allof_prop_enum", {"allOf": [obj({"name": STR, "k": {"type": "string", "enum": ["a", "b"]}}, ["name"]), obj({"k": {"type": "string", "enum": ["b", "c"]}})]}),
+    L("allof_prop_obj", {"allOf": [obj({"name": STR, "o": obj({"x": INT})}, ["name"]), obj({"o": obj({"y": STR}, ["y"])})]}),
+    L("allof_prop_array", {"allOf": [obj({"name": STR, "v": {"type": "array", "items": INT}}, ["name"]), obj({"v": {"type": "array", "minItems": 1}})]}),
     L("untagged_arr_tuple", {"anyOf": [{"type": "array", "items": INT, "maxItems": 1},
                                        {"type": "array", "items": [INT, INT], "minItems": 2, "maxItems": 2}]}, ff=False),
     L("untagged_tuples_f64", {"oneOf": [{"type": "array", "items": [{"type": "number"}, {"type": "number"}], "minItems": 2, "maxItems": 2},
@@ -404,6 +421,9 @@ def place(shape, ctx):
     doc = ctx["build"](copy.deepcopy(shape["schema"]))
     if doc is None:
         return None
+    if shape.get("defs"):
+        doc.setdefault("definitions", {})
+        doc["definitions"].update(copy.deepcopy(shape["defs"]))
     target = None if ctx["id"] == "root" else "T"
     return {"id": "%s@%s" % (shape["id"], ctx["id"]), "doc": doc, "target": target, "ff": shape["ff"] and ctx["ff"],
             "enf": shape["enf"] and ctx["enf"], "strish": shape.get("strish", False) and ctx["id"] in ("def", "ref_alias", "allof1"),
